@@ -43,6 +43,16 @@ func one(body []core.Cmd, data map[string]core.V, ta string, extra ...string) *c
 	}
 }
 
+func optParams(body []core.Cmd, names ...string) []core.Param {
+	ps := []core.Param{}
+	for _, n := range names {
+		if mentions(body, n) {
+			ps = append(ps, core.Param{Name: n, Opt: true})
+		}
+	}
+	return ps
+}
+
 func (f *fam) add(family, feature string, p *core.Program) *Case {
 	c := &Case{Family: family, Feature: feature, Prog: p}
 	f.cases = append(f.cases, c)
@@ -573,6 +583,19 @@ func (f *fam) calls() {
 	}
 	for _, s := range []string{"plain", "<b>&amp;</b>", "'single' \"double\"", "{}", "a\\b", "tab\there", "line\nbreak", "é日本", "</script><!--", "\\u0041"} {
 		f.add("misc", "raw-text", one(cmds(txt(s)), nil, "true"))
+	}
+	// called without any data: templates whose params are all optional (or absent)
+	for _, body := range [][]core.Cmd{
+		cmds(txt("none")),
+		cmds(pr(core.EBin("elvis", vA, core.EStr("~"))), core.CIf(cmds(core.CBr(vB, cmds(txt("B")))), core.Opt(true, cmds(txt("-"))))),
+		cmds(pr(core.EFn("isNonnull", vA)), core.CCall("t.c", "all", nil)),
+		cmds(core.CCall("t.c", "none", nil, core.CPV("p", core.EBin("elvis", core.EVar("a", core.AKey("k", true)), core.EStr("dflt"))))),
+	} {
+		c := f.add("misc", "called-without-data", &core.Program{Bundle: map[string]*core.Tmpl{
+			"t.m": {Params: optParams(body, "a", "b"), Body: body, TA: "true"},
+			"t.c": {Params: []core.Param{{Name: "p", Opt: true}}, Body: cmds(txt("<"), pr(core.EBin("elvis", core.EVar("p"), core.EStr("nop"))), txt(">")), TA: "true"},
+		}, Entry: "t.m", Data: dm(), IJ: core.V{"t": "none"}, Glob: map[string]core.V{}, Plan: noPlan(), Aliases: map[string]bool{}})
+		c.NoData = true
 	}
 	f.add("misc", "log-debugger", one(cmds(txt("a"), core.CLog(cmds(txt("logged "), pr(vA))), core.CDebugger(), txt("b")), dm("a", core.VInt(1)), "true"))
 	// float data values
